@@ -19,6 +19,7 @@ Inductive case :=
 | IdCase (v : Z) (ser : string)
 | HashCase (digest : string) (k : N) (hpoint sig negsig : string)    (* HashToPoint, Sign with a small key, Neg *)
 | MulCase (hpoint : string) (k : Z) (result : string)                 (* G1.ScalarMult(H, k) / Sign *)
+| PkReuse (honest : string) (c : cand) (err ok : bool)                 (* Pubkey.Deserialize into a used receiver *)
 | AddCase (p q result : string)                                       (* G1.Add of two encoded points *)
 | TextSig (honest : string) (text : string) (err ok : bool)           (* Signature.SetHexString + VerifySig *)
 | TextPk (honest : string) (text : string) (err ok : bool)            (* Pubkey.SetHexString + VerifySig *)
@@ -123,6 +124,11 @@ Definition check (c : case) : bool :=
   | HashCase d k hp sg ng => chk_hash d k hp sg ng
   | MulCase hp k rs => chk_mul hp k rs
   | AddCase p q rs => chk_add p q rs
+  | PkReuse h cd err ok =>
+      let hb := unhex h in
+      let b := cand_bytes hb cd in
+      eqbool (is_err (pk_deserialize b)) err &&
+      eqbool (verify_sig (pairing_for (byte_to_pk hb) test_sig) (byte_to_pk b) test_sig) ok
   | TextSig h text err ok =>
       let hb := unhex h in
       match decode_hex_exact text 64 with
@@ -177,6 +183,10 @@ Definition check_fast (c : case) : bool :=
   | HashCase d k hp sg ng => chk_hash d k hp sg ng
   | MulCase hp k rs => chk_mul hp k rs
   | AddCase p q rs => chk_add p q rs
+  | PkReuse h cd err ok =>
+      let hb := unhex h in
+      let b := cand_bytes hb cd in
+      bytes_okb b && eqbool (is_err (pk_deserialize b)) err && eqbool (pk_verdict b hb (pk_deserialize b)) ok
   | TextSig h text err ok =>
       let hb := unhex h in
       match decode_hex_exact text 64 with
@@ -243,7 +253,7 @@ Qed.
 Opaque chk_zero chk_alg chk_sk chk_id chk_hash chk_scalar chk_mul chk_add.
 Theorem check_fast_sound c : check_fast c = true -> check c = true.
 Proof.
-  destruct c as [h cd [err nl valid ser ok] | h cd ok | h cd perr ser ok | h sb ok | sk c ok | v ser | v ser | d k hp sg ng | hp k rs | pa qa rs | h text err ok | h text err ok | text err v].
+  destruct c as [h cd [err nl valid ser ok] | h cd ok | h cd perr ser ok | h sb ok | sk c ok | v ser | v ser | d k hp sg ng | hp k rs | h cd err ok | pa qa rs | h text err ok | h text err ok | text err v].
   - cbn [check_fast check]. set (hb := unhex h). set (b := cand_bytes hb cd).
     intro H. apply andb_true_iff in H as [Hok H]. apply bytes_okb_spec in Hok.
     assert (Hh : bytes_ok hb) by apply unhex_ok.
@@ -263,6 +273,9 @@ Proof.
   - exact (fun H => H).
   - exact (fun H => H).
   - exact (fun H => H).
+  - cbn [check_fast check]. set (hb := unhex h). set (b := cand_bytes hb cd).
+    intro H. apply andb_true_iff in H as [H H2]. apply andb_true_iff in H as [Hok H1]. apply bytes_okb_spec in Hok.
+    rewrite (pk_verdict_ok b hb Hok (unhex_ok h)). rewrite H1, H2. reflexivity.
   - exact (fun H => H).
   - cbn [check_fast check]. destruct (decode_hex_exact text 64) as [b|] eqn:E; [|exact (fun H => H)].
     destruct (decode_hex_exact_spec _ _ _ E) as (_ & _ & _ & _ & _ & _ & Hok).
@@ -273,3 +286,21 @@ Proof.
   - exact (fun H => H).
 Qed.
 Transparent chk_zero chk_alg chk_sk chk_id chk_hash chk_scalar chk_mul chk_add.
+
+(* parsing is a function of the input only: after a FAILED parse the result is the invalid object and
+   VerifySig is false, whatever the receiver held before and whatever the pairing says *)
+Lemma parse_fail_invalid_sig pe pk b v : sig_deserialize b = (v, true) -> verify_sig pe pk v = false.
+Proof. intro H. apply sig_error_nil in H. subst v. reflexivity. Qed.
+Lemma parse_fail_invalid_sig_hex pe pk s v : sig_set_hex s = (v, true) -> verify_sig pe pk v = false.
+Proof.
+  unfold sig_set_hex. destruct (decode_hex_exact s 64) as [b|].
+  - apply parse_fail_invalid_sig.
+  - intro H. inversion H. reflexivity.
+Qed.
+Lemma parse_fail_invalid_pk pe b s e : pk_deserialize b = Err e -> verify_sig pe (byte_to_pk b) s = false.
+Proof.
+  intro H. unfold byte_to_pk. rewrite H. destruct s as [| |x y]; cbn; try reflexivity. destruct (on_curve x y); reflexivity.
+Qed.
+(* the pairing of the exponent model: an identity argument gives the identity of GT *)
+Lemma e_exp_identity r a : e_exp r a 0 = 0 /\ e_exp r 0 a = 0.
+Proof. unfold e_exp. rewrite Z.mul_0_r, Z.mul_0_l. split; apply Zmod_0_l. Qed.
